@@ -91,10 +91,10 @@ def checkBrackets (netloc : Str) : R Unit :=
 
 /-- `_check_netloc` (only called for a non-ASCII netloc) -/
 def checkNetloc (o : Oracles) (netloc : Str) : R Unit := do
-  let n := netloc.filter (fun c => c ≠ 64 ∧ c ≠ 58 ∧ c ≠ 35 ∧ c ≠ 63)
+  let n := netloc.filter (fun c => c ≠ 64 ∧ c ≠ 58 ∧ c ≠ 35 ∧ c ≠ 63 ∧ c ≠ 91 ∧ c ≠ 93)
   let nn ← ask "nfkc" n (o.nfkc n)
   if n = nn then .ok ()
-  else if nn.any (fun c => c = 47 ∨ c = 63 ∨ c = 35 ∨ c = 64 ∨ c = 58) then .error .valueError
+  else if nn.any (fun c => c = 47 ∨ c = 63 ∨ c = 35 ∨ c = 64 ∨ c = 58 ∨ c = 91 ∨ c = 93) then .error .valueError
   else .ok ()
 
 /-- `split_url` -/
